@@ -48,7 +48,17 @@ static void lst_make_sequence(vp_rng_t* r, int mode, uint64_t idx, seq_t* s)
         uint32_t amode = (uint32_t)((idx / 28 + (uint64_t)d) % 4), dtc = codes[(idx + (uint64_t)d) % 28];
         size_t hdr = (size_t)(mode ? 4 : 0) + (size_t)(tscf ? 24 : 12);
         size_t n = build_valid(r, mode, tscf, b, amode, dtc, (uint32_t)vp_rng_below(r, 40), (uint32_t)vp_rng_below(r, 60), (uint32_t)vp_rng_next(r), 0x3fc00000);
-        switch ((idx / 3 + (uint64_t)d * 5) % 12) {
+        switch ((idx / 3 + (uint64_t)d * 5) % 14) {
+        case 12: case 13: {                /* short datagram whose headers announce far more than was sent */
+            name = "announce-more-than-sent";
+            n = build_valid(r, mode, tscf, b, 0, (idx & 1) ? 9 : 0x0B, 20, 10, 0, 0x3fc00000);
+            uint16_t big = (uint16_t)(1200 + vp_rng_below(r, 800));
+            if (tscf) Avtp_Tscf_SetStreamDataLength((Avtp_Tscf_t*)(b + (mode ? 4 : 0)), (vp_rng_next(r) & 1) ? 65535 : big);
+            else Avtp_Ntscf_SetNtscfDataLength((Avtp_Ntscf_t*)(b + (mode ? 4 : 0)), (uint16_t)(big & 0x7ff) | 0x400);
+            Avtp_Vss_SetField((Avtp_Vss_t*)(b + hdr), AVTP_VSS_FIELD_ACF_MSG_LENGTH, 511);
+            vssref_put_be(b + hdr + 12, 2, (uint64_t)(1000 + vp_rng_below(r, 1000)));
+            n = hdr + 14 + (size_t)vp_rng_below(r, 30);
+            break; }
         case 0: case 1: case 2: name = "valid-mode-x-datatype"; break;
         case 3: name = "path-length-lie"; vssref_put_be(b + hdr + 12, 2, (uint64_t)vp_rng_next(r)); break;
         case 4: name = "path-length-max"; vssref_put_be(b + hdr + 12, 2, 65535); break;
